@@ -559,6 +559,40 @@ func c04Extend(x *runCtx, ov *fdo.Voucher, k lab.Kind, signer, next string, enc 
 		}
 	}
 	try("current-owner", k, signer, k, next, true)
+	// vouchers are values: extending the same voucher a second time (to another buyer) must leave the first result as it was
+	func() {
+		other := "own1"
+		if next == other {
+			other = "own2"
+		}
+		input := fmt.Sprintf("extend-twice %s/%s signer=%s/%s first-next=%s second-next=%s entries=%d cap=%d", k.Name, enc, k.PoolKey, signer, next, other, len(ov.Entries), cap(ov.Entries))
+		var first, second *fdo.Voucher
+		res := step(func() (err error) {
+			if first, err = lab.ExtendWith(ov, lab.Key(k.PoolKey+"/"+signer), lab.Key(k.PoolKey+"/"+next).Public()); err != nil {
+				return err
+			}
+			before := cborBytes(first)
+			if second, err = lab.ExtendWith(ov, lab.Key(k.PoolKey+"/"+signer), lab.Key(k.PoolKey+"/"+other).Public()); err != nil {
+				return err
+			}
+			if !bytes.Equal(before, cborBytes(first)) {
+				return fmt.Errorf("changed")
+			}
+			return nil
+		})
+		x.r.Case(input, true, "extend:twice")
+		if res != "ok" {
+			detail := ""
+			if first != nil {
+				if pub, err := first.OwnerPublicKey(); err == nil && second != nil {
+					detail = fmt.Sprintf("first result now reports the second buyer as owner: %v",
+						lab.Key(k.PoolKey+"/"+other).Public().(interface{ Equal(crypto.PublicKey) bool }).Equal(pub))
+				}
+			}
+			x.r.Violate(rep.Violation{Kind: "oracle", Check: "C04.extend", Signature: "C04.extend:earlier-result-changed-by-later-extension", Input: input,
+				Impl: res, Detail: detail, PropertyFails: true})
+		}
+	}()
 	// wrong signers: a stranger, an earlier owner (when there is one), the next owner itself
 	for _, role := range []string{"own1", "own2", "own3", "mfg", "dev2"} {
 		if role != signer {
